@@ -103,7 +103,7 @@ func bigList(prop string) []bigCase {
 			add("seq", "list", f("item[%d]", n), f("item[last() - %d]/@k", n), f("node()[%d]", n))
 		}
 		for _, b := range bases[:5] {
-			add("seq", "root", b+"[last()]", b+"[position() = last()]", b+"[position() != last()]", b+"[position() < last()]", b+"[position() > last() - 3]", b+"[last()][@k = 1]", b+"[last() - 1][sub]")
+			add("seq", "root", b+"[last()]", b+"[position() = last()]", b+"[last() = position()]", b+"[last() > position()]", b+"[last() - 1 = position()]", b+"[position() != last()]", b+"[position() < last()]", b+"[position() > last() - 3]", b+"[last()][@k = 1]", b+"[last() - 1][sub]")
 		}
 		add("seq", "root", "/r/list/item[position() > 256][@k = 3]", "/r/deep//n[1]", "//n/n[1]/text()", "/r/*[4]/w[last()]", "/r/list/item[last()]/sub[last()]")
 	case "C07":
